@@ -50,3 +50,25 @@ Proof.
     + intros j. rewrite Hev. reflexivity.
 Qed.
 
+
+(** program counters from which the request's Lock call is still ahead *)
+Definition prelock (p : pc) : bool :=
+  match p with
+  | PPre _ | PChkS | PChkL | PChkD _ | PLockCall | PMLd Ph0 _ | PMOcsp Ph0 | PMEmit Ph0 | PQLd false _ => true
+  | _ => false
+  end.
+
+Lemma tstep_prelock t th s f b th' s' e :
+  tstep t th s f b = Some (th', s', e) ->
+  (prelock (tpc th') = true -> prelock (tpc th) = true) /\
+  match e_op e, e_out e with
+  | OLock _, 0 => tpc th = PLockCall /\ tpc th' = PLockWait
+  | OAcq _, _ => tpc th = PLockWait
+  | OUnlock _, _ => prelock (tpc th) = false
+  | _, _ => True
+  end.
+Proof.
+  intros H. destruct th as [c p ? ? ? ? ? ? ? ? ?]. destruct p.
+  all: tstep_full H. all: inv_some H. all: cbn [e_op e_out tpc prelock]; split; auto; try discriminate; eauto.
+Qed.
+
